@@ -10,6 +10,20 @@ NOTE = ("Trusted: Lean 4.33 kernel; axioms propext / Classical.choice / Quot.sou
         "standards. CPython's re/str/int semantics are modelled, not verified.")
 
 CLAIMS = {
+    "C13": dict(
+        text="PARTIAL. BBAN.random / IBAN.random are modelled in Lean as pure functions of the arguments and an explicit "
+             "choice record (bank index chosen, raw rstr.xeger strings per attempt). Theorems for EVERY choice record, "
+             "country, registry and pinned set: a returned IBAN is valid (the validating constructor accepts and "
+             "returns it unchanged - never an invalid object); the only library errors of BBAN generation are the "
+             "overflow error and InvalidCountryCode (errors of individual attempts never escape the retry loop); the "
+             "result is a function of arguments and choice record only (no hash seed, no history). Tie: the real "
+             "call is run with a recording generator and the model is evaluated on the recorded choices for every "
+             "country x seeds x modes x pinned subsets. Not provable here: determinism of random.Random / rstr and that "
+             "xeger honours the pattern; pinned read-back, listed-bank membership and cross-process / hash-seed "
+             "reproducibility are dynamic checks.",
+        design="7 (C13)",
+        technique="Lean 4 proof over an explicit choice-record model + recorded-choice differential "
+                  "correspondence + cross-process reproducibility runs"),
     "C14": dict(
         text="PARTIAL. Lean 4 theorems: non-interference for ANY number of threads and ANY schedule (induction over the "
              "schedule, no bound) in the model where each thread steps its own state and only reads the shared "
